@@ -246,7 +246,7 @@ class CoherentFeedForwardLoop:
         # Update circuit breaker
         if result.success and not result.blocked:
             self._record_success()
-        elif result.blocked:
+        elif result.success or "BLOCK" in (z_out.action_type, y_out.action_type):
             # Blocks are intentional, not failures
             pass
         else:
